@@ -5,6 +5,7 @@ import I18n.Lemmas.MetaBlame
 import I18n.Lemmas.MetaRealBinary
 import I18n.Lemmas.MetaRealCharset
 import I18n.Lemmas.MetaRealHeader
+import I18n.Lemmas.MetaWhole
 import I18n.Spec.Metamorphic
 import I18n.Generated.BinaryReads
 /-!
@@ -646,6 +647,101 @@ example : checkDates (τ := Unit) true id (fun _ _ => []) [] ["2012-11-01 14:42+
 
 example : observe (ofMo ⟨['a'], none, .singular ['b']⟩) = observe (ofPo ⟨['a'], none, .singular ['b']⟩) := by decide
 example : ofMo ⟨['a'], none, .singular ['b']⟩ ≠ ofPo ⟨['a'], none, .singular ['b']⟩ := by decide
+
+/-! ## 7. the function the `whole-files` stream exercises -/
+
+/-- **whole_is_composition.**  `Real.wholeCheck` — what the driver op `whole check` (lean/I18n/Driver/Whole.lean) runs on the bytes of a file,
+    and what the `whole-files` stream of tools/checks/C17.py compares line by line with the real `Checker.check` — IS `Check.check`
+    (the model of C01/C03) instantiated with the loader models (C10 `poLoad`, C08 `moLoad`), the `ctx` built from what lib/check can
+    observe of the loaded file, and `Real.pipeline`; the extension (or `--file-type`) only selects the loader and `is_template`.
+    So `same_catalog_same_diagnostics`, `transcoding_composed_files`, `po_file_vs_compiled_mo` above, C01's `real_po_nocrash` /
+    `real_mo_nocrash` / `pipeline_nocrash_unconditional`, and through the stage models the theorems of C07, C14, C15, C16, C18, C19,
+    C20, are about the very function the stream runs. -/
+theorem whole_is_composition (w : Real.World) (env : Po.Env) (db : Mo.CodecDB) (fileType : Option Real.Str) (statOk : Bool) (file : List UInt8) :
+    (Real.extOf fileType w.path = .po →
+      Real.wholeCheck w env db fileType statOk file
+        = check statOk .po (poLoad env file) (fun f b => Real.ctxOfPo false (poView f) b) (Real.pipeline w)) ∧
+    (Real.extOf fileType w.path = .pot →
+      Real.wholeCheck w env db fileType statOk file
+        = check statOk .pot (poLoad env file) (fun f b => Real.ctxOfPo true (poView f) b) (Real.pipeline w)) ∧
+    (Real.extOf fileType w.path = .mo →
+      Real.wholeCheck w env db fileType statOk file = check statOk .mo (moLoad db file) Real.ctxOfMo (Real.pipeline w)) ∧
+    (Real.extOf fileType w.path = .other →
+      (Real.wholeCheck w env db fileType statOk file).lines = (if statOk then [.unknownFileType] else [.osError]) ∧
+      (Real.wholeCheck w env db fileType statOk file).uncaught = false) := by
+  refine ⟨fun h => ?_, fun h => ?_, fun h => ?_, fun h => ?_⟩
+  · simp only [Real.wholeCheck, h, Real.checkPo]; rfl
+  · simp only [Real.wholeCheck, h, Real.checkPo]; rfl
+  · simp only [Real.wholeCheck, h, Real.checkMo]
+  · simp only [Real.wholeCheck, h]
+    cases statOk <;> exact ⟨rfl, rfl⟩
+
+/-- it is `Real.checkPo` / `Real.checkMo` of the theorems above -/
+theorem whole_is_checkPo_checkMo (w : Real.World) (env : Po.Env) (db : Mo.CodecDB) (fileType : Option Real.Str) (statOk : Bool) (file : List UInt8) :
+    (Real.extOf fileType w.path = .po → Real.wholeCheck w env db fileType statOk file = Real.checkPo w env false statOk file) ∧
+    (Real.extOf fileType w.path = .pot → Real.wholeCheck w env db fileType statOk file = Real.checkPo w env true statOk file) ∧
+    (Real.extOf fileType w.path = .mo → Real.wholeCheck w env db fileType statOk file = Real.checkMo w db statOk file) :=
+  ⟨fun h => by simp only [Real.wholeCheck, h], fun h => by simp only [Real.wholeCheck, h], fun h => by simp only [Real.wholeCheck, h]⟩
+
+/-- `--file-type` overrides the extension; `.po` / `.pot` / `.mo`, `.gmo` are the three kinds (lines 133-146) -/
+theorem ext_of_file_type (path : Real.Str) :
+    Real.extOf (some "po".toList) path = .po ∧ Real.extOf (some "pot".toList) path = .pot ∧
+    Real.extOf (some "mo".toList) path = .mo ∧ Real.extOf (some "gmo".toList) path = .mo ∧ Real.extOf (some "txt".toList) path = .other := by
+  have h : ∀ t : Real.Str, Real.extOf (some t) path = Real.classifyExt ('.' :: t) := fun _ => rfl
+  simp only [h]
+  clear h path
+  decide
+
+/-- **the order of the stage calls is the order of the source**: `Generated.BinaryReads.checkStages` is what `Checker.check` says
+    today (regenerated from /repo by ast on every run) … -/
+theorem stage_order_pinned :
+    Generated.BinaryReads.checkStages =
+      ["check_comments(ctx)", "check_headers(ctx)", "check_language(ctx)", "check_plurals(ctx)", "check_mime(ctx)",
+       "if broken_encoding: ctx.encoding = None", "check_dates(ctx)", "check_project(ctx)", "check_translator(ctx)", "check_messages(ctx)"] := rfl
+
+/-- … **output_order**: and the composed checker prints its tags stage by stage in that order — for every `ctx`, the positions
+    (in the SOURCE list) of the stage calls the printed tags come from are non-decreasing: comments, headers, language, plurals,
+    mime, dates, project, translator, messages.  (`Real.stagePos` looks the stage of a tag up in the generated list, so exchanging
+    two calls in lib/check/__init__.py breaks this proof, and the `whole-files` stream finds the file.) -/
+theorem output_order (w : Real.World) (s : BinFlags × Real.RCtx) :
+    ((runStages (Real.pipeline w) s).1.map Real.stagePos).Pairwise (· ≤ ·) :=
+  (Real.runStages_ordered Real.stagePos (Real.pipeline w) 0 (Real.pipeline_ordered w) s).2
+
+/-- the same for a whole run: the lines `check` prints itself come first or last (`afterLoad`), the stage tags in source order -/
+theorem output_order_check {F : Type} (w : Real.World) (statOk : Bool) (ext : Ext) (load : Bool → Except LoadErr F)
+    (init : F → Bool → BinFlags × Real.RCtx) :
+    (((check statOk ext load init (Real.pipeline w)).lines.filterMap fun l => match l with | .tag t => some (Real.stagePos t) | _ => none)).Pairwise (· ≤ ·) := by
+  have key : ∀ (pre : List (Line Real.RTag)) (s : BinFlags × Real.RCtx), (∀ l ∈ pre, ∀ t, l ≠ .tag t) →
+      ((afterLoad pre (Real.pipeline w) s).lines.filterMap fun l => match l with | .tag t => some (Real.stagePos t) | _ => none).Pairwise (· ≤ ·) := by
+    intro pre s hpre
+    have e : (afterLoad pre (Real.pipeline w) s).lines.filterMap (fun l => match l with | .tag t => some (Real.stagePos t) | _ => none)
+        = (runStages (Real.pipeline w) s).1.map Real.stagePos := by
+      simp only [afterLoad, List.filterMap_append]
+      have h1 : pre.filterMap (fun l => match l with | .tag t => some (Real.stagePos t) | _ => none) = [] := by
+        apply List.filterMap_eq_nil_iff.mpr
+        intro l hl
+        cases l with
+        | tag t => exact absurd rfl (hpre _ hl t)
+        | _ => rfl
+      rw [h1, List.nil_append, List.filterMap_map]
+      induction (runStages (Real.pipeline w) s).1 with
+      | nil => rfl
+      | cons a r ih => simp only [List.filterMap_cons, Function.comp, List.map_cons, ih]
+    rw [e]
+    exact output_order w s
+  unfold check
+  cases statOk
+  · simp
+  · simp only [Bool.not_true, Bool.false_eq_true, if_false]
+    by_cases he : ext = .other
+    · simp [he]
+    · simp only [he, if_false]
+      rcases h0 : load false with e0 | f0
+      · cases e0 <;> simp only [List.filterMap_cons, List.filterMap_nil] <;> try exact List.Pairwise.nil
+        rcases h1 : load true with e1 | f1
+        · cases e1 <;> simp
+        · exact key _ _ (by intro l hl t; simp at hl; subst hl; simp)
+      · exact key _ _ (by simp)
 
 /-! ### non-vacuity of the composed theorems: a small world, a header without POT-Creation-Date, one message -/
 
